@@ -51,6 +51,18 @@ CHECKS = {
  "C07": ("fault_enumeration", "XOR-closure search for the victim's probed key over all bytes on the wire, on honest runs, on every enumerated single alteration that keeps the run going, and on a scripted persistent attacker",
          "With d the victim's global key: d must not occur at any byte offset (either byte order), no two 128-bit windows and no three decoded 128-bit fields of the pooled traffic (plus what peers hold in the honest run of the same tape) may XOR to d; evaluated on honest runs (NOT gates on inputs, AND outputs, outputs; n=2..4), on every fault of the C02/C04 menu after which the victim keeps sending, and on the check-bit liar with fixed-up reply.",
          "label census not implemented; one by-design leak of the failing LaAND check is a known finding", "4.C07", "E1+E2"),
+ "C13": ("model_checking", "explicit-state exploration of event histories on the real PolicyState actors (current-thread tokio, paused clock, owned RPC transport), merged by Mazurkiewicz canonical form",
+         "All orders of schedule injections, deliveries and answers of every validate/run/consts RPC and compile completions are enumerated on the real actors for n=2 (every leader, constants from none/one/all, destination subsets) and n=3; at the end of every maximal history every schedule call returned Ok, every destination received exactly the clear-text result once, all state machines stopped without panic and all permits are back.",
+         "MPC messages are delivered eagerly FIFO per pair (their positions are part of the canonical form); quiescence = tokio paused-clock idleness plus the guarded compile gate", "4.C13", "E4"),
+ "C14": ("fault_enumeration", "enumeration of every stray command kind x target x position of a complete history on the real actors",
+         "At every prefix length among coordination events (and spaced positions during MPC) of the default history for n=2 and n=3, each stray command (duplicate/foreign schedule, run, consts, mpc_msg with in- and out-of-range senders) is sent to each party; no state machine may panic, an unknown sender is never accepted, and when the stray command was rejected all end-of-history assertions of C13 still hold.",
+         "base = default-order history; stray commands that are valid for the current state are only checked for panics", "4.C14", "E4"),
+ "C15": ("model_checking", "enumeration of cancel injection points over the event history (incl. the compile window and MPC messages) on the real actors under an owned scheduler",
+         "For every party, cancel is injected after every k-th event of the default history (coordination events, compile completions, MPC messages); once cancel returned Ok the state machine has stopped, the destination got exactly one notification (Cancelled or the real result) and nothing later, and the permit is back.",
+         "current-thread runtime only; both orders of 'task polled' vs 'notify' are reached through the compile gate", "4.C15", "E4"),
+ "C16": ("model_checking", "explicit-state exploration of all event histories with one mismatching or ill-typed policy on the real actors",
+         "For every follower with a different program or leader field and every party with an ill-typed program (n=2,3, every leader in thorough), all histories are enumerated; both schedule calls end in an error, zero MPC messages are ever issued, nobody is sent a successful result, permits are back.",
+         "two self-declared leaders are out of scope", "4.C16", "E4"),
 }
 
 NOT_YET = "check not built yet (construction in progress, see DESIGN.md section 8)"
@@ -76,6 +88,7 @@ def main():
             "add_only": True,
         },
         "engines": [
+            {"name": "E4", "path": "harness/src/srv.rs", "serves_properties": ["C13","C14","C15","C16","C17"], "kind_free_text": "explicit-state exploration of the real tokio actors of polytune-server-core: current-thread runtime with paused clock, harness-owned PolicyClient transport releasing one delivery/reply/compile completion/cancel at a time, replay-based state reconstruction, Mazurkiewicz canonical form"},
             {"name": "E1", "path": "harness/src/exec.rs", "serves_properties": ["C01","C02","C03","C04","C05","C06","C07","C08","C09","C10","C11","C12","C18","C19"], "kind_free_text": "stateless exploration of the real async engine: owned executor (one OS thread per party, lock-step), scheduler-controlled Channel, deterministic entropy backend"},
         ],
         "checks": [],
